@@ -9,6 +9,9 @@ import numpy as np
 # state of the scripted model; SimParallel runs every task in the parent process, so a module-level
 # cursor is shared by "isolated" copies too (isolation is by pickling, not by a separate process)
 SCRIPT = {"values": None, "i": 0, "per": 1}
+# pre-emption hook of the simulator (set by CalSim): a model that takes a while can be interleaved with its siblings when
+# the worker pool shares one interpreter
+YIELD = {"fn": None}
 
 
 def reset_script(values=None, per=1):
@@ -42,6 +45,13 @@ class HarnessModel:
             x = x + th[-1]
         elif self.kind == "mix":
             x = rng.normal(0.0, 1.0, size=(N, D)) * (0.5 + np.abs(th).sum()) + np.sin(th).sum()
+        elif self.kind == "globalrng":
+            # the idiom of the library's example notebooks: seed numpy's global generator, then draw from it.  A pure
+            # function of (theta, N, seed) as long as every simulation has the interpreter to itself.
+            np.random.seed(int(seed) % (2 ** 32))  # noqa: NPY002
+            if YIELD["fn"] is not None:
+                YIELD["fn"]()                      # "set-up work" between seeding and drawing
+            x = np.random.normal(th[0], 0.5, size=(N, D)) + np.random.random() * th[-1]  # noqa: NPY002
         elif self.kind == "scripted":
             vals = SCRIPT["values"]
             i = SCRIPT["i"] // SCRIPT["per"]
